@@ -45,6 +45,7 @@ impl<T> VerifWrap<T> for Result<T, CtxError> {      // error::Wrap keeps Ok-ness
 impl Ctx {
     #[verifier::external_body] pub fn now(&self) -> Instant { unimplemented!() }
     #[verifier::external_body] pub fn with_deadline(&self, d: Deadline) -> Ctx { unimplemented!() }
+    #[verifier::external_body] pub fn is_active(&self) -> bool { unimplemented!() }       // A4: whether the context has been cancelled; any value
 }
 impl Clone for Deadline { #[verifier::external_body] fn clone(&self) -> (r: Self) { unimplemented!() } }
 impl Copy for Deadline {}
@@ -187,24 +188,7 @@ impl PayloadMap {
 }
 """
 
-ORD_VIEW = r"""
-// A1: #[derive(PartialOrd)] on View is lexicographic in field order (genesis, epoch, number); the order on hashes is opaque
-pub uninterp spec fn hash_cmp(a: GenesisHash, b: GenesisHash) -> Ordering;
-pub broadcast axiom fn hash_cmp_refl(a: GenesisHash) ensures #[trigger] hash_cmp(a, a) == Ordering::Equal;
-impl PartialOrd for View { #[verifier::external_body] fn partial_cmp(&self, other: &Self) -> (r: Option<Ordering>) { unimplemented!() } }
-impl PartialOrdSpecImpl for View {
-    open spec fn obeys_partial_cmp_spec() -> bool { true }
-    open spec fn partial_cmp_spec(&self, other: &Self) -> Option<Ordering> {
-        Some(match hash_cmp(self.genesis, other.genesis) {
-            Ordering::Equal => match ord_u64(self.epoch.0, other.epoch.0) {
-                Ordering::Equal => ord_u64(self.number.0, other.number.0),
-                o => o,
-            },
-            o => o,
-        })
-    }
-}
-"""
+
 
 SPEC = r"""
 // ---------------- specification of the replica (C03 / C05), written from the statements and spec/informal-spec/replica.rs ----------------
@@ -287,7 +271,11 @@ def add_core(U):
                         ("self.config\n            .engine_manager\n            .set_state(ctx, &backup)",
                          "assert(backup matches ReplicaState::V2(s) && s.epoch == self.config.epoch && s.view_number == self.view_number && s.phase == self.phase "
                          "&& s.high_vote == self.high_vote && s.high_commit_qc == self.high_commit_qc && s.high_timeout_qc == self.high_timeout_qc);   /* W-ghost: what is written IS the snapshot */ "
-                         "self.config\n            .engine_manager\n            .set_state(ctx, &backup)")],
+                         "self.config\n            .engine_manager\n            .set_state(ctx, &backup)"),
+                        # W-ghost: Ok may only be returned after the write to durable storage has succeeded (the callers treat Ok as "durable")
+                        ("Ok(())", "{ assert(verif_wrote);   /* W-ghost: every Ok path has written the state */ Ok(()) }", None)],
+         post_subs=[(".wrap(())?;", ".wrap(())?; proof { verif_wrote = true; }   /* W-ghost */", 1)],
+         proof_at_start="let ghost mut verif_wrote: bool = false;   /* W-ghost */",
          spec="    ensures true,\n")
     U.fn(F_BLOCK, SM + " :: fn save_block", wrap=SM, ret="r", header_subs=HDR, rules_=RULES,
          subs=PATHS + [("block.clone().into()", "Block::FinalV2(block.clone())   /* R-type: From<FinalBlock> for Block */"),
@@ -919,6 +907,11 @@ pub open spec fn snap_default() -> Snap {
     Snap { view: ViewNumber(0), phase: Phase::Prepare, high_vote: None, high_commit_qc: None, high_timeout_qc: None }
 }
 """, label="spec start")
+    U.raw("""
+// derive-like glue: the trait impls delegate to the inherent functions verified below (so code using Default::default still type-checks)
+impl Default for ChonkyV2State { #[verifier::external_body] fn default() -> Self { unimplemented!() } }
+impl Default for ReplicaState { #[verifier::external_body] fn default() -> Self { unimplemented!() } }
+""", label="Default glue")
     U.fn(F_STATE, "impl Default for ChonkyV2State :: fn default", wrap="impl ChonkyV2State", ret="r",
          subs=[("vec![]", "Vec::new()   /* R-std */")],
          spec="    ensures snap_of(r) == snap_default(), r.epoch == EpochNumber(0),\n")
@@ -1027,6 +1020,8 @@ pub type FromNetworkMessage = ConsensusReq;
 def build(repo):
     U = Unit("replica", ["C04"], desc="replica state machine", uses=T.USES + "\nuse std::sync::Arc;")
     U.repo = repo
+    # the certificate functions are premises of every replica rule: the properties served by this unit count their failures too
+    U.props = ["C04", "C01", "C02", "C03", "C05", "C16"]
     T.add_base_types(U)
     Q.add_signers(U)
     Q.add_commit(U)
@@ -1035,7 +1030,6 @@ def build(repo):
     U.props = ["C02"]
     I.add_implied(U)
     U.props = ["C03", "C05", "C01", "C10"]
-    U.raw(ORD_VIEW, label="derive(PartialOrd) for View")
     U.item(F_CONS2, "enum Phase", attrs=T.D_COPY)
     U.item(F_CONS2, "enum ChonkyMsg")
     U.item(F_CONS, "enum ConsensusMsg", subs=[("v2::ChonkyMsg", "ChonkyMsg")])
